@@ -20,7 +20,7 @@ def main():
         print("patch does not apply:", r.stdout); return 2
     res = {}
     try:
-        env = dict(os.environ, PYFS2_VERIF_REPO=SCRATCH)
+        env = dict(os.environ, PYFS2_VERIF_REPO=SCRATCH, PYFS2_VERIF_EVIDENCE_DIR=SCRATCH + "_evidence")
         for pid in pids:
             t = time.time()
             r = subprocess.run(["/verif/bin/check", pid], cwd="/verif", env=env, stdout=subprocess.PIPE,
